@@ -206,6 +206,9 @@ func genHistory(id int, r *hx.RNG, maxLen int) *history {
 		if len(g.queue) > 0 {
 			q := g.queue[0]
 			g.queue = g.queue[1:]
+			if l, ok := g.lazy[q.tag]; ok && q.data == nil {
+				q.data, q.tag = l.build(g), l.tag
+			}
 			add(q.data, q.tag)
 			continue
 		}
